@@ -256,4 +256,23 @@ PLAN = {
         min_nontrivial=dict(quick=200, thorough=3000),
         runs=both("", dict(cases=2400, size=100, budget=40), dict(cases=60000, size=150, budget=900), 6, 10),
     ),
+    "C13": dict(
+        rule=("(api) LP solved to optimality by the direct rational simplex (random pricing), then a random sequence of "
+              "QSopt_pivotin_row / QSopt_pivotin_col calls (rank-one updates of the factorization, no refactor); after the solve and "
+              "after every accepted pivot-in: QSget_basis_order must list distinct basic columns, each row i of QSget_binv_row must "
+              "satisfy row_i . B = e_i with B's columns taken in that order from [A | diag(sigma)], and each QSget_tableau_row must "
+              "equal row_i . [A | logicals], all exactly. (lu) component level through the installed factor header: sparse rational "
+              "matrices dim 1..40 of 8 structures (random sparse, triangular, dense, arrow, singletons, duplicate columns, "
+              "near-singular with 2^-k perturbations) factored by ILLfactor, then up to 60 column replacements following the caller "
+              "protocol of basis.c (ftran_update, ILLfactor_update, refactor on request or on blow-up/singular/no-space codes), "
+              "replacement columns regular, singular-making or dense; a labelled minority runs with non-default MAX_K / ETAMAX / "
+              "DENSE_MIN. After factor and after every update ftran and btran of a sparse and a dense right-hand side must satisfy "
+              "the system exactly; nsing==0 iff the harness's exact elimination says regular; singular replacements must be reported. "
+              "Non-trivial = >=2 accepted pivot-ins on m>=3 (api); dim>=4 with >=3 updates since the last refactor or a singular/"
+              "refactor event (lu)."),
+        technique="PBT with algebraic identity oracle (B^-1 B = I) against exact dense elimination",
+        min_nontrivial=dict(quick=400, thorough=4000),
+        runs=both("api", dict(cases=6000, size=100, budget=35), dict(cases=150000, size=150, budget=600), 4, 4) +
+             both("lu", dict(cases=8000, size=100, budget=35), dict(cases=300000, size=150, budget=600), 4, 4),
+    ),
 }
